@@ -406,7 +406,17 @@ impl Searcher {
         // it may otherwise be displaced from its bucket before the line is rebuilt
         let mut stored_root_entry: Option<TranspositionEntry> = None;
 
-        if let Some(entry) = transpositions.find(state_hash) {
+        // At the root, a stored best move that walks into a position already seen in the
+        // game can't be trusted: the entry was written before that position was recorded,
+        // so its evaluation ignores the repetition. Search the root again in that case.
+        let stored_entry = transpositions.find(state_hash).filter(|entry| {
+            current_depth > 0
+                || !State::by_performing_move(game_state, &entry.performed_move)
+                    .map(|next| state_history.lookup(&hasher.hash(&next)).is_some())
+                    .unwrap_or(true)
+        });
+
+        if let Some(entry) = stored_entry {
             let remaining_depth = max_depth - current_depth;
             let remaining_depth_in_transposition = entry.max_depth - entry.depth;
             if remaining_depth_in_transposition >= remaining_depth {
